@@ -733,6 +733,8 @@ const SEC_PAIRS: [(u8, u8); 6] = [(0, 0), (0, 1), (0, 2), (1, 1), (1, 2), (2, 2)
 const SEC_TRIPLES: [(u8, u8, u8); 10] = [(0, 0, 0), (0, 0, 1), (0, 0, 2), (0, 1, 1), (0, 1, 2), (0, 2, 2), (1, 1, 1), (1, 1, 2), (1, 2, 2), (2, 2, 2)];
 
 fn main() {
+    // a stack overflow / abort in the code under test must become a verdict, not a dead check
+    vcore::supervise("C02");
     let ctx = Ctx::from_args("C02", "exploration");
     let thorough = !ctx.quick();
     ctx.case_timeout_s.store(120, std::sync::atomic::Ordering::Relaxed);
